@@ -222,3 +222,37 @@ Proof. reflexivity. Qed.
 Lemma dgram_key_port a p1 p2 d :
   dgram_key {| eAddr := a; ePort := p1 |} d = dgram_key {| eAddr := a; ePort := p2 |} d.
 Proof. reflexivity. Qed.
+
+(* ---- C07 over histories: one message per data record, in wire order ---- *)
+Lemma convert_recs_forall2 cfg ver base up : forall rs ms,
+  convert_recs cfg ver base up rs = Ok ms -> Forall2 (fun r m => convert_nf cfg ver base up r = Ok m) rs ms.
+Proof.
+  induction rs as [|r rs IH]; intros ms H; cbn [convert_recs] in H.
+  - inversion H. constructor.
+  - destruct (convert_nf cfg ver base up r) as [m| | |] eqn:E; try discriminate.
+    destruct (convert_recs cfg ver base up rs) as [ms0| | |]; try discriminate.
+    inversion H; subst. constructor; [exact E|apply IH; reflexivity].
+Qed.
+
+(* the i-th message of a datagram is the conversion of its i-th data record (in the order the sets and their records
+   stand in the datagram), stamped with the packet-level columns *)
+Theorem step_messages_in_order cfg h e tr d st' o ms ver d0 p tnf s1 :
+  let st := nf_after cfg init_pstate h in
+  rd 2 d = Ok (ver, d0) -> (ver =? 5) = false -> (ver =? 9) || (ver =? 10) = true ->
+  decode_nf_body (tstores_get (psT st) (exp_id e)) ver d0 = Ok (p, tnf, s1) ->
+  nf_step cfg st e tr d = Ok (st', o, ms) ->
+  ms = [] \/
+  exists base up ms0 f,
+    Forall2 (fun r m => convert_nf cfg (pVer p) base up r = Ok m) (data_records (pSets p)) ms0 /\ ms = map f ms0.
+Proof.
+  intros st Hr H5 H9 Hd Hs. unfold nf_step in Hs. fold st in Hs. rewrite Hr, H5, H9, Hd in Hs.
+  destruct (produce_nf cfg (psS st) (addr_id (eAddr e)) p) as [[ms1| | |] ss'] eqn:Ep; try discriminate.
+  - right. inversion Hs; subst; clear Hs. unfold produce_nf in Ep.
+    set (base := if pVer p =? 9 then nth 2 (pHdr p) 0 else nth 1 (pHdr p) 0) in *.
+    set (up := if pVer p =? 9 then nth 1 (pHdr p) 0 else 0) in *.
+    destruct (convert_recs cfg (pVer p) base up (data_records (pSets p))) as [ms0| | |] eqn:Ec; try (inversion Ep; fail).
+    destruct (find_sampling (optdata_records (pSets p)) 0) as [[found rate]| | |]; try (inversion Ep; fail).
+    inversion Ep; subst; clear Ep.
+    exists base, up, ms0. eexists. split; [apply convert_recs_forall2; exact Ec|]. rewrite map_map. reflexivity.
+  - left. inversion Hs. reflexivity.
+Qed.
